@@ -9,7 +9,13 @@ From Comdex Require Import Lib.Base Lib.DecArith Lib.GoSem Model.Pool Gen.PureFu
 
 Theorem tie_amm_Deposit : forall rx ry ps x y,
   gen_amm_Deposit rx ry ps x y = Pool.deposit rx ry ps x y.
-Proof. intros. reflexivity. Qed.
+Proof.
+  (* convertible as the code stands; the case analysis also survives a re-ordering of the
+     independent checked operations (same results in every case) *)
+  intros. first [ reflexivity
+                | unfold gen_amm_Deposit, deposit, deposit_body, quo_trunc_s, quo_s, ceil_int_s, Pool.lift_ovf, min_dec;
+                  tie_solve ].
+Qed.
 Print Assumptions tie_amm_Deposit.
 
 Theorem tie_amm_Deposit_recognised : gen_amm_Deposit_unrecognised = [].
